@@ -1,9 +1,12 @@
 import Driver.Core
+import Driver.RW
 /-! One request per line on stdin, one canonical answer per line on stdout. -/
 open Driver EoVerif
 
 structure DState where
   sqr : Seq.Sequencer := Seq.Sequencer.new 0
+  w : Writer := {}
+  rs : Readers := {}
 
 def step (st : DState) (line : String) : DState × String :=
   match (line.trimAscii.toString.splitOn " ").filter (· ≠ "") with
@@ -21,6 +24,16 @@ def step (st : DState) (line : String) : DState × String :=
   | ["sqr", "set", v] => match v.toInt? with
     | some v => ({ st with sqr := (st.sqr.step (.setStart v)).1 }, "ok")
     | none => (st, "bad-op")
+  | ["w", "new"] => ({ st with w := {} }, "ok")
+  | "w" :: rest => match parseWOp rest with
+    | some op =>
+      let (w', out) := st.w.step op
+      ({ st with w := w' }, (match out with | .ok () => "ok" | .error e => s!"err {e}") ++ " " ++ writerState w')
+    | none => (st, "bad-op")
+  | "r" :: rest =>
+    let (rs', out) := handleReader st.rs rest
+    ({ st with rs := rs' }, out)
+  | "cp1252" :: rest => (st, handleCp rest)
   | ["ping"] => (st, "pong")
   | _ => (st, "bad-op")
 
